@@ -15,6 +15,13 @@ pub const H5_BYTES: u32 = 16;
 /// H1b: an *inexact* length hint (the hint is only a hint: iterators report lower bounds, hand-written
 /// impls count before filtering): off by one, or 0 for a non-empty container
 pub const H6_INEXACT_LEN: u32 = 32;
+/// H7: a struct written through `serialize_map` with its field names as string keys (what
+/// `#[serde(flatten)]` and many hand-written impls do), entries whole or split into key + value
+pub const H7_STRUCT_AS_MAP: u32 = 64;
+/// H8: a (non-root) struct written positionally through `serialize_tuple` (a hand-written compact
+/// form; `derive(Deserialize)` reads it back through `visit_seq`). Changes the text's shape, so it is
+/// only used where no reference tree is compared (C13).
+pub const H8_STRUCT_AS_TUPLE: u32 = 128;
 
 #[derive(Debug)]
 pub struct WCfg {
@@ -22,15 +29,18 @@ pub struct WCfg {
     pub hseed: u64,
     ctr: Cell<u64>,
     /// per flag: how many times the unusual choice was actually taken
-    pub used: [Cell<u32>; 6],
+    pub used: [Cell<u32>; 8],
+    /// structs seen so far (the first one may be the document root)
+    structs_seen: Cell<u32>,
 }
 
 impl WCfg {
     pub fn new(hmask: u32, hseed: u64) -> Self {
-        WCfg { hmask, hseed, ctr: Cell::new(0), used: Default::default() }
+        WCfg { hmask, hseed, ctr: Cell::new(0), used: Default::default(), structs_seen: Cell::new(0) }
     }
     pub fn reset(&self) {
         self.ctr.set(0);
+        self.structs_seen.set(0);
     }
     /// an inexact hint for a container of `n` elements (H1b), or the exact one
     fn hint(&self, n: usize) -> usize {
@@ -64,6 +74,16 @@ pub struct W<'a> {
     pub ty: &'a Ty,
     pub v: &'a Val,
     pub cfg: &'a WCfg,
+}
+
+/// A value as handed to a serializer entry point: the writer's choices restart, so that every
+/// serialization of the same value makes the same choices (C13 serializes one value many times).
+pub struct WTop<'a>(pub W<'a>);
+impl Serialize for WTop<'_> {
+    fn serialize<S: Serializer>(&self, s: S) -> Result<S::Ok, S::Error> {
+        self.0.cfg.reset();
+        self.0.serialize(s)
+    }
 }
 
 struct WKey<'a> {
@@ -178,6 +198,25 @@ impl Serialize for W<'_> {
                         m.serialize_value(&w(vt, v))?;
                     } else {
                         m.serialize_entry(&wk, &w(vt, v))?;
+                    }
+                }
+                m.end()
+            }
+            (Ty::Struct(_, fs), Val::Struct(xs)) if { cfg.structs_seen.set(cfg.structs_seen.get() + 1); cfg.structs_seen.get() > 1 } && cfg.flag(H8_STRUCT_AS_TUPLE) => {
+                let mut q = s.serialize_tuple(fs.len())?;
+                for ((_, t), x) in fs.iter().zip(xs) {
+                    q.serialize_element(&w(t, x))?;
+                }
+                q.end()
+            }
+            (Ty::Struct(_, fs), Val::Struct(xs)) if cfg.flag(H7_STRUCT_AS_MAP) => {
+                let mut m = s.serialize_map(Some(fs.len()))?;
+                for ((f, t), x) in fs.iter().zip(xs) {
+                    if cfg.flag(H7_STRUCT_AS_MAP) {
+                        m.serialize_key(f.as_str())?;
+                        m.serialize_value(&w(t, x))?;
+                    } else {
+                        m.serialize_entry(f.as_str(), &w(t, x))?;
                     }
                 }
                 m.end()
